@@ -338,17 +338,19 @@ pub fn oracle_cli_quit(scn: &E3Scn, d: &D3, out: &RunOut, stats: &mut Stats) -> 
             continue; // tie with a child transition
         }
         stats.hit("probe:cli-quit-with-running-command");
-        let sig_t = match c.signals.iter().find(|s| s.1 > qb.1) {
-            Some(s) if s.2 == stop_sig && s.0 >= q && s.0 <= q + pending_delay => s.0,
-            other => {
-                // (the command may also have ended by itself before the queued stop was reached)
-                if c.exit.map(|e| e.1 < 1000 && e.0 <= q + pending_delay).unwrap_or(false) {
+        // the quit's own stop signal: the last one of the configured kind inside the window (earlier ones
+        // may be busy-signals of changes whose --delay-run had not run out when the quit arrived)
+        let sig_t = match c.signals.iter().filter(|s| s.1 > qb.1 && s.2 == stop_sig && s.0 >= q && s.0 <= q + pending_delay).last() {
+            Some(s) => s.0,
+            None => {
+                // (the command may also have ended before the queued stop was reached)
+                if c.exit.map(|e| e.0 <= q + pending_delay).unwrap_or(false) {
                     continue;
                 }
                 vs.push(Violation::new(
                     "quit-wrong-stop-signal",
                     "cli",
-                    format!("child {k} running at the quit (t={q}): expected stop signal {stop_sig} by t={}, saw {:?}", q + pending_delay, other.map(|s| (s.0, s.2))),
+                    format!("child {k} running at the quit (t={q}): expected stop signal {stop_sig} by t={}, saw {:?}", q + pending_delay, c.signals.iter().filter(|s| s.1 > qb.1).map(|s| (s.0, s.2)).collect::<Vec<_>>()),
                 ));
                 continue;
             }
@@ -455,6 +457,26 @@ pub fn gen_cli_race(rng: &mut Rng) -> E3Scn {
     s
 }
 
+/// --delay-run with short-lived commands and changes placed around their exits: the job task is busy
+/// sleeping when the process ends (stale running state)
+pub fn gen_cli_delay(rng: &mut Rng) -> E3Scn {
+    let mut s = gen_cli(rng);
+    s.family = "cli-delay".into();
+    s.mode = rng.pick(&["do-nothing", "signal", "queue", "restart"]).to_string();
+    if s.mode != "signal" {
+        s.signal = None;
+    }
+    s.spelling = "long".into();
+    let d = *rng.pick(&[5u64, 50]);
+    s.delay_run_ms = Some(d);
+    s.debounce_ms = 0;
+    let life = *rng.pick(&[5u64, 15, 40]);
+    s.children = vec![ChildSpec { self_exit: Some(life), on_signal: SigReact::Exit(0), ..Default::default() }];
+    let gaps = [0u64, 0, 1, life / 2, life, life + 1, d, d + 1, d + life, d + life + 1, 7, 60, 400];
+    s.steps = (0..rng.range(2, 8)).map(|i| E3Step { gap: *rng.pick(&gaps), kind: E3Kind::Change { id: 10 + i as u32 } }).collect();
+    s
+}
+
 pub fn shrink_e3(s: &E3Scn) -> Vec<E3Scn> {
     let mut out = Vec::new();
     for i in 0..s.steps.len() {
@@ -556,7 +578,11 @@ impl Check for C05 {
         }
     }
     fn generate(&self, rng: &mut Rng, idx: u64, _tier: Tier) -> Option<E3Scn> {
-        Some(if idx % 4 == 3 { gen_cli_race(rng) } else { gen_cli(rng) })
+        Some(match idx % 4 {
+            3 => gen_cli_race(rng),
+            2 => gen_cli_delay(rng),
+            _ => gen_cli(rng),
+        })
     }
     fn execute(&self, scn: &E3Scn, policy: Policy, sched_seed: u64) -> RunOut {
         e3::execute(scn, policy, sched_seed)
